@@ -38,6 +38,67 @@ func (c *Ctx) locks() *lockInfo {
 	for _, fn := range c.M.Funcs {
 		li.in[fn] = c.solveLocks(fn)
 	}
+	// lock wrappers: a function of the module that returns, on every way out, with a mutex of one of its parameters
+	// held that it took itself (`defer u.lockCache()()`, `c.lock()`); a call of it is a Lock on that mutex. The functions
+	// are solved once more with that knowledge (one level of wrapping).
+	c.lockWrappers = map[*ssa.Function][]string{}
+	for _, fn := range c.M.Funcs {
+		if fn.Parent() != nil || len(fn.Blocks) == 0 {
+			continue
+		}
+		rets := core.ReturnInstrs(fn)
+		if len(rets) == 0 {
+			continue
+		}
+		var held map[string]bool
+		for _, r := range rets {
+			st := map[string]bool{}
+			if ins := li.in[fn]; r.Block().Index < len(ins) && ins[r.Block().Index] != nil {
+				st = copySet(ins[r.Block().Index])
+			}
+			for _, in := range r.Block().Instrs {
+				c.lockTransfer(in, st)
+			}
+			if held == nil {
+				held = st
+			} else {
+				for k := range held {
+					if !st[k] {
+						delete(held, k)
+					}
+				}
+			}
+		}
+		// a deferred unlock gives the mutex back on return: not a wrapper
+		for _, b := range fn.Blocks {
+			for _, in := range b.Instrs {
+				if d, ok := in.(*ssa.Defer); ok && mutexOp(&d.Call) == "unlock" && len(d.Call.Args) > 0 {
+					delete(held, c.M.AddrPath(d.Call.Args[0]))
+				}
+			}
+		}
+		var paths []string
+		for k := range held {
+			root := k
+			if i := strings.IndexByte(k, '.'); i >= 0 {
+				root = k[:i]
+			}
+			for _, prm := range fn.Params {
+				if prm.Name() == root {
+					paths = append(paths, k)
+				}
+			}
+		}
+		if len(paths) > 0 {
+			sort.Strings(paths)
+			c.lockWrappers[fn] = paths
+		}
+	}
+	if len(c.lockWrappers) > 0 {
+		for _, fn := range c.M.Funcs {
+			li.in[fn] = c.solveLocks(fn)
+		}
+	}
 	// entry-held fixpoint (start optimistic: unknown = nil meaning "all"; we represent top by absence)
 	type site struct {
 		caller *ssa.Function
@@ -219,10 +280,41 @@ func (c *Ctx) lockTransfer(ins ssa.Instruction, st map[string]bool) {
 			st[c.M.AddrPath(x.Call.Args[0])] = true
 		case "unlock":
 			delete(st, c.M.AddrPath(x.Call.Args[0]))
+		default:
+			for _, p := range c.wrapperLocks(&x.Call) {
+				st[p] = true
+			}
 		}
 	case *ssa.Defer:
 		// deferred unlock: the lock stays held until the function returns
 	}
+}
+
+// wrapperLocks: the mutexes (as paths of the caller) that the call takes and leaves held because its callee is a lock
+// wrapper.
+func (c *Ctx) wrapperLocks(cc *ssa.CallCommon) []string {
+	if len(c.lockWrappers) == 0 || cc.IsInvoke() {
+		return nil
+	}
+	callee := core.StaticBody(cc)
+	if callee == nil {
+		return nil
+	}
+	var out []string
+	for _, p := range c.lockWrappers[callee] {
+		root, rest := p, ""
+		if i := strings.IndexByte(p, '.'); i >= 0 {
+			root, rest = p[:i], p[i:]
+		}
+		for i, prm := range callee.Params {
+			if prm.Name() == root && i < len(cc.Args) {
+				if ap := c.M.ValPath(cc.Args[i]); ap != "" {
+					out = append(out, ap+rest)
+				}
+			}
+		}
+	}
+	return out
 }
 
 // lockedAt: the mutex paths certainly held immediately before instruction at (including locks held at every call site).
